@@ -356,6 +356,11 @@ func GenEngineScript(r *Rng, o EngineGenOpts, hist map[string]int) []string {
 					add("bracers %02x%02x %d @%d:%d", 0x72, j, 40+r.Intn(80), 1+r.Intn(12), r.Intn(999))
 					hist["op_batch_racing_puts_of_one_key"]++
 				}
+				if r.Chance(1, 12) {
+					// a reader of the batch races with Puts of the same key through the batch
+					add("bgetrace %s %d %d", genEngKey(r, hist), 100+r.Intn(200), r.Pick(64, 700, 4096, 30000))
+					hist["op_batch_get_racing_put"]++
+				}
 				y := r.Intn(10)
 				switch {
 				case y < 5:
@@ -381,6 +386,14 @@ func GenEngineScript(r *Rng, o EngineGenOpts, hist map[string]int) []string {
 			}
 			add("commit")
 			add("dump")
+			if r.Chance(1, 8) {
+				// a batch committed empty, and committed again: the second Commit is refused and releases nothing
+				add("batch %d", r.Intn(2))
+				add("commit")
+				add("commit")
+				add("put %s %s", genEngKey(r, hist), genEngVal(r, o, c, hist))
+				hist["op_empty_batch_committed_twice"]++
+			}
 			if r.Chance(1, 5) {
 				// use after commit must be rejected
 				add("bput 6b31 01")
@@ -512,6 +525,7 @@ func GenBackupCycle(r *Rng, o EngineGenOpts, hist map[string]int) []string {
 	}
 	groups := 2 + r.Intn(2)
 	key := func(g, i int) string { return fmt.Sprintf("%02x%02x%02x", 0x6b, g, i) }
+	missing := false
 	if r.Chance(1, 2) {
 		// the backup directory was a database before, and a finished merge of that database still waits beside it
 		cf := genCfg(r, o, hist)
@@ -526,6 +540,12 @@ func GenBackupCycle(r *Rng, o EngineGenOpts, hist map[string]int) []string {
 		}
 		add("merge")
 		add("close")
+		if r.Chance(1, 2) {
+			// that database was deleted by its owner: the destination does not exist, the finished merge beside it does
+			add("rmdir")
+			missing = true
+			hist["backup_into_missing_directory_with_foreign_pending_merge"]++
+		}
 		hist["backup_into_directory_with_foreign_pending_merge"]++
 	}
 	add("dir db")
@@ -548,6 +568,19 @@ func GenBackupCycle(r *Rng, o EngineGenOpts, hist map[string]int) []string {
 		}
 	}
 	backup()
+	if missing {
+		// the first backup, into the directory that did not exist, is opened at once
+		add("dump")
+		add("close")
+		add("dir %s", bk)
+		add("open %s", genCfg(r, o, hist))
+		add("dump")
+		add("list")
+		add("close")
+		add("dir db")
+		add("open %s", c)
+		add("dump")
+	}
 	victim := r.Intn(groups)
 	if r.Chance(1, 4) {
 		// the source is emptied completely: the refreshed backup must open to the empty mapping
